@@ -18,6 +18,10 @@
  *   eq a b | cmp a b | vset x V | exc k | nest k1 k2
  *   (transcript only) hash x | show x | fmt p x | flt a b | range a b c | slice c k | rev c | zip c c2 | filter c k | map c k
  *                     | enum c | gc
+ *   (transcript only, ignored by the model) heap Tuples of copies of value objects, in their own slots 0..MAXT-1; the items are
+ *   reachable ONLY through the Tuple (the collector must keep them alive; under CELLO_NGC the harness deletes them itself):
+ *                     tnew t T x* | tpush t x | tpushat t i x | tpop t | tpopat t i | tget t i | tset t i x | titems t | tritems t
+ *                     | tlen t | tsort t | tmem t x | trem t x | tcat t x* | tresize t n | tcmp t t2 | thash t | tdrop t | tdel t
  */
 #include "common.h"
 #include <inttypes.h>
@@ -31,13 +35,16 @@
 
 #define MAXSLOT 48
 #define MAXTOK 80
+#define MAXT 16
 
 /* ------------------------------------------------------------------------------------------------ shadow (direct oracle) */
 typedef struct { int isstr; long long i; char s[40]; } SV;
-enum { K_NONE = 0, K_VAL, K_ARRAY, K_LIST, K_TABLE, K_TREE };
+enum { K_NONE = 0, K_VAL, K_ARRAY, K_LIST, K_TABLE, K_TREE, K_TUPLE };
 typedef struct { int kind; int et; int vt; SV* xs; SV* ys; size_t n, cap; } SH;
 static SH sh[MAXSLOT];
 static var* S;              /* the live handles: an array in main's frame (the collector scans the stack) */
+static var* TS;             /* heap Tuples (transcript-only part), also in main's frame */
+static SH tsh[MAXT];        /* their shadows: kind K_TUPLE, et, xs = values of the items in order */
 static size_t cur_line = 0;
 static size_t n_exec = 0, n_ooc = 0, n_bad = 0, n_x = 0;
 
@@ -189,6 +196,13 @@ static void check_obj(int s, const char* after) {
   }
 }
 
+static void check_tuple(int s, const char* after) {
+  char w[128];
+  lib_items(buf1, TS[s]); sh_items(buf2, &tsh[s], 0);
+  if (strcmp(buf1, buf2)) { snprintf(w, sizeof w, "tuple-contents-after-%s", after); XF(w, buf1, buf2); }
+  if (len(TS[s]) != tsh[s].n) { snprintf(w, sizeof w, "tuple-len-after-%s", after); XF(w, "", ""); }
+}
+
 static var kind_obj(int k) {
   switch (((k % 6) + 6) % 6) {
     case 0: return TypeError; case 1: return ValueError; case 2: return KeyError;
@@ -207,6 +221,7 @@ static const char* FMTS_STR[] = { "%s", "[%8s|%-8s]", "%.2s", "<%s>%%" };
 
 /* ------------------------------------------------------------------------------------------------ interpreter */
 #define OOC() do { O("out-of-contract"); n_ooc++; return; } while (0)
+#define TOOC() do { fprintf(vout, "T out-of-contract\n"); n_ooc++; return; } while (0)
 #define BAD() do { O("bad-op"); n_bad++; return; } while (0)
 #define LIVE(s) (sh[s].kind != K_NONE)
 
@@ -618,6 +633,155 @@ static void run_op(int nt, char** t) {
     if (exc) { unexpected(exc); return; }
     fprintf(vout, "T %s [%s]\n", op, buf1); return;
   }
+
+  /* ---------------- heap Tuples (transcript only; the Lean driver checks the syntax and prints nothing) */
+  if (!strcmp(op, "tcmp")) {
+    int t2;
+    if (nt != 3 || !parse_slot(t[1], &a) || !parse_slot(t[2], &t2) || a >= MAXT || t2 >= MAXT) BAD();
+    if (tsh[a].kind != K_TUPLE || tsh[t2].kind != K_TUPLE || tsh[a].et != tsh[t2].et) TOOC();
+    n_exec++;
+    int r = 0; bool q = false;
+    V_TRY(exc, { r = cmp(TS[a], TS[t2]); q = eq(TS[a], TS[t2]); });
+    if (exc) { unexpected(exc); return; }
+    int w = 0; size_t i = 0;
+    for (;; i++) {
+      if (i == tsh[a].n && i == tsh[t2].n) { w = 0; break; }
+      if (i == tsh[a].n) { w = -1; break; }
+      if (i == tsh[t2].n) { w = 1; break; }
+      w = sv_cmp(&tsh[a].xs[i], &tsh[t2].xs[i]); if (w) break;
+    }
+    r = r < 0 ? -1 : r > 0 ? 1 : 0;
+    if (r != w || (int)q != (w == 0)) { snprintf(e1, sizeof e1, "%d/%d", r, (int)q); snprintf(e2, sizeof e2, "%d/%d", w, w == 0); XF("tcmp", e1, e2); }
+    fprintf(vout, "T tcmp %d eq=%d\n", r, (int)q); return;
+  }
+  if (!strcmp(op, "tnew") || !strcmp(op, "tcat")) {
+    int isnew = op[1] == 'n'; int et = 0; int first = isnew ? 3 : 2;
+    if (nt < first || !parse_slot(t[1], &a) || a >= MAXT) BAD();
+    if (isnew && !parse_ty(t[2], &et)) BAD();
+    int cnt = nt - first; int xs[MAXTOK];
+    for (int i = 0; i < cnt; i++) if (!parse_slot(t[first + i], &xs[i])) BAD();
+    if (isnew ? tsh[a].kind != K_NONE : tsh[a].kind != K_TUPLE) TOOC();
+    if (!isnew) et = tsh[a].et;
+    for (int i = 0; i < cnt; i++) if (sh[xs[i]].kind != K_VAL || sh[xs[i]].et != et) TOOC();
+    if (!isnew && tsh[a].n + cnt > 200) TOOC();
+    n_exec++;
+    var args[MAXTOK + 1];
+    V_TRY(exc, {
+      for (int i = 0; i < cnt; i++) args[i] = copy(S[xs[i]]);        /* fresh objects: no pointer occurs twice (F13) */
+      args[cnt] = Terminal;
+      if (isnew) TS[a] = new_with(Tuple, $(Tuple, args)); else concat(TS[a], $(Tuple, args));
+    });
+    if (exc) { unexpected(exc); return; }
+    if (isnew) { tsh[a].kind = K_TUPLE; tsh[a].et = et; tsh[a].n = 0; sh_reserve(&tsh[a], cnt + 1); }
+    for (int i = 0; i < cnt; i++) { SV x = sh[xs[i]].xs[0]; sh_insert(&tsh[a], tsh[a].n, &x); }
+    fprintf(vout, "T %s ok\n", op); check_tuple(a, op); return;
+  }
+  if (!strcmp(op, "tpush") || !strcmp(op, "tmem") || !strcmp(op, "trem")) {
+    if (nt != 3 || !parse_slot(t[1], &a) || !parse_slot(t[2], &b) || a >= MAXT) BAD();
+    if (tsh[a].kind != K_TUPLE || sh[b].kind != K_VAL || sh[b].et != tsh[a].et) TOOC();
+    long at = sh_find(&tsh[a], &sh[b].xs[0]);
+    if (op[1] == 'r' && at < 0) TOOC();
+    if (op[1] == 'p' && tsh[a].n >= 200) TOOC();
+    n_exec++;
+    if (op[1] == 'p') {
+      V_TRY(exc, push(TS[a], copy(S[b])));
+      if (exc) { unexpected(exc); return; }
+      sh_insert(&tsh[a], tsh[a].n, &sh[b].xs[0]);
+    } else if (op[1] == 'm') {
+      bool r = false;
+      V_TRY(exc, r = mem(TS[a], S[b]));
+      if (exc) { unexpected(exc); return; }
+      if ((int)r != (at >= 0)) XF("tmem", r ? "1" : "0", at >= 0 ? "1" : "0");
+      fprintf(vout, "T tmem %d\n", (int)r); return;
+    } else {
+      var victim = NULL;
+      V_TRY(exc, { victim = get(TS[a], $I(at)); rem(TS[a], S[b]); del(victim); });   /* `rem` removes the first equal item: that one */
+      if (exc) { unexpected(exc); return; }
+      sh_remove(&tsh[a], (size_t)at);
+    }
+    fprintf(vout, "T %s ok\n", op); check_tuple(a, op); return;
+  }
+  if (!strcmp(op, "tpushat") || !strcmp(op, "tset")) {
+    if (nt != 4 || !parse_slot(t[1], &a) || !parse_int(t[2], &n) || !parse_slot(t[3], &b) || a >= MAXT) BAD();
+    if (tsh[a].kind != K_TUPLE || sh[b].kind != K_VAL || sh[b].et != tsh[a].et) TOOC();
+    long long L = (long long)tsh[a].n, i = n < 0 ? L + n : n;
+    if (i < 0 || i >= L || L >= 200) TOOC();             /* Tuple_Push_At walks to an existing item: i == len is refused */
+    n_exec++;
+    if (op[1] == 'p') {
+      V_TRY(exc, push_at(TS[a], copy(S[b]), $I(n)));
+      if (exc) { unexpected(exc); return; }
+      sh_insert(&tsh[a], (size_t)i, &sh[b].xs[0]);
+    } else {
+      V_TRY(exc, { var old = get(TS[a], $I(n)); set(TS[a], $I(n), copy(S[b])); del(old); });
+      if (exc) { unexpected(exc); return; }
+      tsh[a].xs[i] = sh[b].xs[0];
+    }
+    fprintf(vout, "T %s ok\n", op); check_tuple(a, op); return;
+  }
+  if (!strcmp(op, "tpopat") || !strcmp(op, "tget") || !strcmp(op, "tresize")) {
+    if (nt != 3 || !parse_slot(t[1], &a) || !parse_int(t[2], &n) || a >= MAXT) BAD();
+    if (tsh[a].kind != K_TUPLE) TOOC();
+    long long L = (long long)tsh[a].n, i = n < 0 ? L + n : n;
+    if (op[1] == 'r') { if (n < 0 || n >= L) TOOC(); }    /* Tuple_Resize only shrinks, and raises for n >= len */
+    else if (i < 0 || i >= L) TOOC();
+    n_exec++;
+    if (op[1] == 'g') {
+      var r = NULL;
+      V_TRY(exc, r = get(TS[a], $I(n)));
+      if (exc) { unexpected(exc); return; }
+      lib_show(e1, sizeof e1, r); sv_show(e2, sizeof e2, &tsh[a].xs[i]);
+      if (strcmp(e1, e2)) XF("tget", e1, e2);
+      fprintf(vout, "T tget %s\n", e1); return;
+    }
+    if (op[1] == 'p') {
+      V_TRY(exc, { var old = get(TS[a], $I(n)); pop_at(TS[a], $I(n)); del(old); });
+      if (exc) { unexpected(exc); return; }
+      sh_remove(&tsh[a], (size_t)i);
+    } else {
+      V_TRY(exc, { for (long long j = n; j < L; j++) del(get(TS[a], $I(j))); resize(TS[a], (size_t)n); });
+      if (exc) { unexpected(exc); return; }
+      tsh[a].n = (size_t)n;
+    }
+    fprintf(vout, "T %s ok\n", op); check_tuple(a, op); return;
+  }
+  if (!strcmp(op, "tpop") || !strcmp(op, "titems") || !strcmp(op, "tritems") || !strcmp(op, "tlen") || !strcmp(op, "tsort")
+      || !strcmp(op, "thash") || !strcmp(op, "tdrop") || !strcmp(op, "tdel")) {
+    if (nt != 2 || !parse_slot(t[1], &a) || a >= MAXT) BAD();
+    if (tsh[a].kind != K_TUPLE) TOOC();
+    if (!strcmp(op, "tpop") && tsh[a].n == 0) TOOC();
+    n_exec++;
+    if (!strcmp(op, "tpop")) {
+      V_TRY(exc, { var old = get(TS[a], $I(-1)); pop(TS[a]); del(old); });
+      if (exc) { unexpected(exc); return; }
+      sh_remove(&tsh[a], tsh[a].n - 1);
+    } else if (!strcmp(op, "titems") || !strcmp(op, "tritems")) {
+      V_TRY(exc, if (op[1] == 'r') lib_ritems(buf1, TS[a]); else lib_items(buf1, TS[a]));
+      if (exc) { unexpected(exc); return; }
+      sh_items(buf2, &tsh[a], op[1] == 'r');
+      if (strcmp(buf1, buf2)) XF(op, buf1, buf2);
+      fprintf(vout, "T %s %s\n", op, buf1); return;
+    } else if (!strcmp(op, "tlen")) {
+      size_t r = 0;
+      V_TRY(exc, r = len(TS[a]));
+      if (exc) { unexpected(exc); return; }
+      if (r != tsh[a].n) XF("tlen", "", "");
+      fprintf(vout, "T tlen %zu\n", r); return;
+    } else if (!strcmp(op, "tsort")) {
+      V_TRY(exc, sort(TS[a]));
+      if (exc) { unexpected(exc); return; }
+      for (size_t i = 1; i < tsh[a].n; i++) { SV x = tsh[a].xs[i]; size_t j = i; while (j > 0 && sv_cmp(&tsh[a].xs[j-1], &x) > 0) { tsh[a].xs[j] = tsh[a].xs[j-1]; j--; } tsh[a].xs[j] = x; }
+    } else if (!strcmp(op, "thash")) {
+      uint64_t h = 0;
+      V_TRY(exc, h = hash(TS[a]));
+      if (exc) { unexpected(exc); return; }
+      fprintf(vout, "T thash %016" PRIx64 "\n", h); return;
+    } else {
+      if (op[2] == 'e') { V_TRY(exc, { foreach (x in TS[a]) { del(x); } del(TS[a]); }); if (exc) { unexpected(exc); return; } }
+      TS[a] = NULL; sh_free(&tsh[a]);
+      fprintf(vout, "T %s ok\n", op); return;
+    }
+    fprintf(vout, "T %s ok\n", op); check_tuple(a, op); return;
+  }
   if (!strcmp(op, "gc")) {
     if (nt != 1) BAD();
     n_exec++;
@@ -627,6 +791,7 @@ static void run_op(int nt, char** t) {
     fprintf(vout, "T gc\n");
     /* every live handle must be intact after a collection */
     for (int s = 0; s < MAXSLOT; s++) if (LIVE(s)) check_obj(s, "gc");
+    for (int s = 0; s < MAXT; s++) if (tsh[s].kind == K_TUPLE) check_tuple(s, "gc");
     return;
   }
   BAD();
@@ -636,6 +801,7 @@ int main(int argc, char** argv) {
   v_init();
   if (argc < 2) { fprintf(stderr, "usage: h_cfg <opfile>\n"); return 2; }
   var slots[MAXSLOT]; memset(slots, 0, sizeof slots); S = slots;
+  var tslots[MAXT]; memset(tslots, 0, sizeof tslots); TS = tslots;
   size_t n; char** lines = v_read_lines(argv[1], &n);
   I("cfg=%s opt=%s header=%zu cache=%d", VCFG, VOPT, sizeof(struct Header), (int)CELLO_CACHE_NUM);
   for (size_t li = 0; li < n; li++) {
@@ -650,7 +816,14 @@ int main(int argc, char** argv) {
   /* teardown: the workload deletes what it created (nothing is freed for it under CELLO_NGC) */
   size_t live = 0;
   for (int s = 0; s < MAXSLOT; s++) if (LIVE(s)) { live++; check_obj(s, "end"); var exc; V_TRY(exc, del(S[s])); if (exc) unexpected(exc); S[s] = NULL; sh_free(&sh[s]); }
+  size_t tlive = 0;
+  for (int s = 0; s < MAXT; s++) if (tsh[s].kind == K_TUPLE) {
+    tlive++; check_tuple(s, "end");
+    var exc; V_TRY(exc, { foreach (x in TS[s]) { del(x); } del(TS[s]); }); if (exc) unexpected(exc);
+    TS[s] = NULL; sh_free(&tsh[s]);
+  }
   O("end live=%zu", live);
+  fprintf(vout, "T end tuples=%zu\n", tlive);
   I("executed=%zu out-of-contract=%zu bad=%zu oracle-failures=%zu", n_exec, n_ooc, n_bad, n_x);
   return 0;
 }
